@@ -810,8 +810,28 @@ impl Exec {
                         }
                         self.ledger_check("repair window", p)?;
                     }
-                    // the same packets requested one at a time
-                    let idx: Vec<usize> = if ps.len() <= 6 { (0..ps.len()).collect() } else { vec![0, 1, ps.len() / 2, ps.len() - 2, ps.len() - 1] };
+                    // the same packets requested one at a time: all of a small window; of a large one
+                    // the ends, the middle, every position within 12 ids of a multiple of 2^16 of the
+                    // encoding or of the internal symbol id, and (every 8th bulk window) everything
+                    let kp = crate::rank::params(k).kp;
+                    let idx: Vec<usize> = if ps.len() <= 6 {
+                        (0..ps.len()).collect()
+                    } else if ps.len() >= 1000 && (*s as usize + ps.len()) % 8 == 0 {
+                        (0..ps.len()).collect()
+                    } else {
+                        let mut v = vec![0, 1, ps.len() / 2, ps.len() - 2, ps.len() - 1];
+                        for i in 0..ps.len() {
+                            let esi = k as u64 + *s as u64 + i as u64;
+                            let isi = kp as u64 + *s as u64 + i as u64;
+                            let near = |x: u64| x % 65536 < 12 || x % 65536 >= 65536 - 12;
+                            if near(esi) || near(isi) {
+                                v.push(i);
+                            }
+                        }
+                        v.sort_unstable();
+                        v.dedup();
+                        v
+                    };
                     for i in idx {
                         let single = guarded(|| self.replicas[*replica].blocks[*sbn as usize].repair_packets(s + i as u32, 1));
                         match single {
